@@ -129,7 +129,7 @@ _RE_STATES = re.compile(r"(\d+) states generated, (\d+) distinct states found")
 _RE_DEPTH = re.compile(r"The depth of the complete state graph search is (\d+)")
 _RE_INV = re.compile(r"Error: Invariant (\S+) is violated")
 _RE_ACTP = re.compile(r"Error: Action property (\S+) is violated")
-_RE_TEMP = re.compile(r"Error: Temporal properties were violated")
+_RE_TEMP = re.compile(r"Error: Temporal propert(?:ies were|y (\S+) was) violated")
 _RE_SIM = re.compile(r"The number of states generated: (\d+)")
 
 
@@ -203,7 +203,7 @@ def tlc(engine, module, cfg, workers=None, timeout=600, simulate=None, depth=Non
         if m:
             res.violation = m.group(1)
         elif _RE_TEMP.search(out):
-            res.violation = "temporal"
+            res.violation = _RE_TEMP.search(out).group(1) or "temporal"
         elif "Error: Deadlock reached" in out:
             res.violation = "deadlock"
         elif "is violated" in out and "Error:" in out:
